@@ -1170,8 +1170,12 @@ deep_copy_array (array_t * arg)
   int i;
 
   vec = allocate_empty_array (arg->size);
+  /* keep the partial copy on the stack: an error further down (nesting too
+   * deep, mapping too large) must release it */
+  push_refed_array (vec);
   for (i = 0; i < arg->size; i++)
     deep_copy_svalue (&arg->item[i], &vec->item[i]);
+  sp--;
   return vec;
 }
 
@@ -1198,7 +1202,9 @@ deep_copy_mapping (mapping_t * arg)
   mapping_t *map;
 
   map = allocate_mapping (0);	/* this should be fixed.  -Beek */
+  push_refed_mapping (map);	/* see deep_copy_array() */
   mapTraverse (arg, (map_func_t)doCopy, map);
+  sp--;
   return map;
 }
 
@@ -1217,8 +1223,12 @@ deep_copy_svalue (svalue_t * from, svalue_t * to)
             ("Mappings, arrays and/or classes nested too deep (%d) for copy()\n",
              MAX_SAVE_SVALUE_DEPTH);
         }
-      *to = *from;
-      to->u.arr = deep_copy_array (from->u.arr);
+      {
+        /* 'to' may sit in a partial copy that an error releases: it must never hold the original's pointer */
+        array_t *copy = deep_copy_array (from->u.arr);
+        *to = *from;
+        to->u.arr = copy;
+      }
       depth--;
       break;
     case T_MAPPING:
@@ -1230,8 +1240,11 @@ deep_copy_svalue (svalue_t * from, svalue_t * to)
             ("Mappings, arrays and/or classes nested too deep (%d) for copy()\n",
              MAX_SAVE_SVALUE_DEPTH);
         }
-      *to = *from;
-      to->u.map = deep_copy_mapping (from->u.map);
+      {
+        mapping_t *copy = deep_copy_mapping (from->u.map);
+        *to = *from;
+        to->u.map = copy;
+      }
       depth--;
       break;
     default:
